@@ -307,7 +307,7 @@ def body(run):
     tab = (meta.get("extra") or {}).get("lock_table") or {}
     run.extra["unjudged_public_methods_that_never_take_the_instance_lock"] = tab.get("public_methods_that_never_take_the_instance_lock")
     run.assumptions += [
-        "the lock table is a flattening of each method body (every statement once, branches and loops ignored, aliases through locals not followed): it can only over-approximate what a call does; both of its code-visible consequences (which calls park on the held lock, which calls never return) are checked against the real code on every run, and a disagreement is reported as a machinery failure, never as a violation",
+        "the lock table is a flattening of each method body (every statement once, branches and loops ignored; locals that hold instance memory -- a copy of a reference field, a node loaded from the table or handed to a helper -- are classified flow-insensitively and accesses through them are recorded as accesses of the elements behind a slice field or of field n of SOME node; a peer parameter is assumed to reach same-receiver helpers unchanged): it can only over-approximate what a call does; both of its code-visible consequences (which calls park on the held lock, which calls never return) are checked against the real code on every run, and a disagreement is reported as a machinery failure, never as a violation",
         "point operations are fixed by name in LockDiscipline.tla from the property statement (put/add/get/contains/remove/remove-first/last/clear/size/is-empty/enqueue/dequeue families); enumerations (Keys/Values/Entries and the enumerators), whole-structure operations and configuration calls (SetMax, SetCapacity, GetCapacity, SetNullValue, IsFull) racing against mutators are outside the property: such race reports are accepted by the trace specification and counted in the evidence; freedom from self-deadlock is checked for every public method",
         "race freedom is decided on the executions run (race detector as observation channel; goroutines unsynchronised except for the start barrier and the instance's own lock) plus the exhaustive exploration of the extracted field/lock table; it is not a proof over all schedules of the real code",
         "linearizability is decided on many small histories; invocation/response order is the order of stamps from one atomic counter (before the call, after the return), never wall-clock order; results are projected with the standard library only (adapters of harness/c09 and harness/c12); the answer of put/add for a NEW key and of Add in the plain maps is judged as leniently as in C09/C12",
@@ -315,5 +315,6 @@ def body(run):
         "schedules are not forced (no hooks): overlap comes from start barriers, lockstep rounds (harness-side spin barriers before each call), GOMAXPROCS variation, injected yields and sleeps and repetition; all of it only decides WHICH interleaving is observed; a rejected concurrent history is re-executed up to 400 times on fresh instances and every execution is judged by TLC; a rejection that does not come back is a machinery failure reported at the end of the run",
         "NoSplit (a point operation is one critical section on its instance) is explored by TLC on the extracted table but is a hint, not a verdict: the operations it lists (on the unchanged tree the queues' GetTimeout, a retry loop over GetNoWait) get directed concurrent histories, and only a non-linearizable real history is a violation",
         "watchdogs (4 s per call or per sequence of calls in one state, 15 s per history) only have to beat scheduler stalls: a spurious timeout does not reproduce in the triage re-run and ends as exit 2; a call that panics is accepted by the lock-discipline binding (panics of single calls are C09/C12's subject) but not inside a concurrent history",
-        "the instance lock is reached by reflect+unsafe on the private lock field named by the table; 'parked on the lock' is read from the waiter count in sync.Mutex's state word (Go 1.2x layout), no timing involved",
+        "the instance lock is reached by reflect+unsafe on the private lock field named by the table; 'parked on the lock' is read from the waiter count in sync.Mutex's state word and, for a sync.RWMutex, from its reader count (Go 1.2x layout; before first use the harness exercises a readers-writer lock of its own and checks that these words say what is assumed), no timing involved; a lock that is a lock only by its use (a field of another type with Lock / Unlock) cannot be held from outside: the footprint of such a type is taken with nothing held",
+        "a method taking another instance of its own type is explored by TLC with a second instance, with the receiver itself and crosswise on two threads; the real calls are made the same three ways (watchdog states populated / self / cross); which object a peer parameter holds is the only thing the scenario adds -- lock-order cycles over more than two instances are not explored",
     ]
